@@ -157,9 +157,9 @@ def _refers_to_binding(prog, fi: FuncInfo, e: ast.AST, bindings) -> Optional[str
     return None
 
 
-def r1_inventory(ctx) -> None:
+def r1_inventory(ctx, rid: str = "C15.R1") -> None:
     r, prog = ctx.r, ctx.prog
-    r.rule("C15.R1", "every (module-/class-level mutable binding, function that can write it) pair is in the reviewed table")
+    r.rule(rid, "every (module-/class-level mutable binding, function that can write it) pair is in the reviewed table")
     bindings = _bindings(prog)
     r.analysed["C15.shared_mutable_bindings"] = len(bindings)
     writers: dict[tuple[str, str], tuple[FuncInfo, ast.AST, str]] = {}
@@ -201,17 +201,17 @@ def r1_inventory(ctx) -> None:
     for b in sorted(bindings):
         ws = [(k, v) for k, v in writers.items() if k[0] == b]
         if not ws:
-            r.ok("C15.R1", b, f"{bindings[b][1]}: no function in sigma/ writes it (read-only table)")
+            r.ok(rid, b, f"{bindings[b][1]}: no function in sigma/ writes it (read-only table)")
     for (b, q), (fi, n, how) in sorted(writers.items(), key=lambda kv: kv[0]):
         loc = f"{fi.module.relpath}:{getattr(n, 'lineno', fi.node.lineno)}"
         reason = ALLOWED_WRITERS.get((b, q))
         if reason:
-            r.ok("C15.R1", q, f"writes {b} ({how}) — allowed: {reason}", loc)
+            r.ok(rid, q, f"writes {b} ({how}) — allowed: {reason}", loc)
         else:
-            r.violation("C15.R1", q, f"{b} <- {how}",
+            r.violation(rid, q, f"{b} <- {how}",
                         f"process-wide mutable object {b} ({bindings.get(b, ('', '?'))[1]}) is written by {q}; the pair is not in the "
                         f"reviewed table of shared-state writers, so state can flow from one conversion into the next", loc)
-    r.floor("C15.R1", 40)
+    r.floor(rid, 40)
 
 
 # ------------------------------------------------------------------------------------------ R2
